@@ -33,6 +33,7 @@ static void dump_item(const cbor_item_t* it, struct vh_buf* o, int flags, struct
         vb_u8(o, 1);
         size_t n = cbor_bytestring_chunk_count(it);
         vb_u64(o, n);
+        if (n && !cbor_bytestring_chunks_handle(it)) { vb_u8(o, 'X'); break; }
         for (size_t i = 0; i < n; i++) dump_item(cbor_bytestring_chunks_handle(it)[i], o, flags, ids);
       }
       break;
@@ -47,6 +48,7 @@ static void dump_item(const cbor_item_t* it, struct vh_buf* o, int flags, struct
         vb_u8(o, 1);
         size_t n = cbor_string_chunk_count(it);
         vb_u64(o, n);
+        if (n && !cbor_string_chunks_handle(it)) { vb_u8(o, 'X'); break; }
         for (size_t i = 0; i < n; i++) dump_item(cbor_string_chunks_handle(it)[i], o, flags, ids);
       }
       break;
@@ -55,6 +57,7 @@ static void dump_item(const cbor_item_t* it, struct vh_buf* o, int flags, struct
       vb_u8(o, cbor_array_is_indefinite(it) ? 1 : 0);
       size_t n = cbor_array_size(it);
       vb_u64(o, n);
+      if (n && !cbor_array_handle(it)) { vb_u8(o, 'X'); break; } /* corrupt: members claimed but no storage */
       for (size_t i = 0; i < n; i++) dump_item(cbor_array_handle(it)[i], o, flags, ids);
       break;
     }
@@ -63,6 +66,7 @@ static void dump_item(const cbor_item_t* it, struct vh_buf* o, int flags, struct
       vb_u8(o, cbor_map_is_indefinite(it) ? 1 : 0);
       size_t n = cbor_map_size(it);
       vb_u64(o, n);
+      if (n && !cbor_map_handle(it)) { vb_u8(o, 'X'); break; } /* corrupt: pairs claimed but no storage */
       for (size_t i = 0; i < n; i++) {
         dump_item(cbor_map_handle(it)[i].key, o, flags, ids);
         dump_item(cbor_map_handle(it)[i].value, o, flags, ids);
